@@ -28,12 +28,33 @@ pub fn table(a: &Option<Fingerprint>, b: &Option<Fingerprint>, z: &Option<Finger
     }
 }
 
-fn mk(codes: &[u8]) -> FpMap {
+/// path names for the tree-level check. Set 0: p0, p1, ... Set 1: a directory next to siblings whose names extend it with a byte
+/// below '/' ('.', '-', ' ') - where component order (PathBuf's Ord) and byte order disagree
+fn pname(set: u8, i: usize) -> PathBuf {
+    const AWK: [&str; 6] = ["lib/mod.rs", "lib.rs", "lib/util.rs", "lib-old", "lib/a b", "lib ext"];
+    if set == 0 { PathBuf::from(format!("p{i}")) } else { PathBuf::from(AWK[i % AWK.len()]) }
+}
+fn mk(codes: &[u8]) -> FpMap { mk_set(codes, 0) }
+fn mk_set(codes: &[u8], set: u8) -> FpMap {
     let mut m = FpMap::new();
     for (i, &c) in codes.iter().enumerate() {
-        if let Some(f) = fp(c) { m.insert(PathBuf::from(format!("p{i}")), f); }
+        if let Some(f) = fp(c) { m.insert(pname(set, i), f); }
     }
     m
+}
+/// the same statement over the awkward names: the result is exactly one non-trivial table decision per path of the union, in
+/// PathBuf order
+fn check_reconcile_awk(a: &[u8], b: &[u8], z: &[u8], trust: bool) -> Option<String> {
+    let (ma, mb, mz) = (mk_set(a, 1), mk_set(b, 1), mk_set(z, 1));
+    let got = reconcile(&ma, &mb, &mz, trust);
+    let mut want: Vec<(PathBuf, Action)> = vec![];
+    for i in 0..a.len() {
+        let base = if trust { fp(z[i]) } else { None };
+        let act = table(&fp(a[i]), &fp(b[i]), &base);
+        if act != Action::Noop { want.push((pname(1, i), act)); }
+    }
+    want.sort_by(|x, y| x.0.cmp(&y.0));
+    if got != want { Some(format!("reconcile over sibling names like lib.rs / lib/mod.rs (a={a:?}, b={b:?}, base={z:?}, trust={trust}) = {:?}, the table over the union of paths gives {:?}", got.iter().map(|(p, x)| format!("{}:{x:?}", p.display())).collect::<Vec<_>>(), want.iter().map(|(p, x)| format!("{}:{x:?}", p.display())).collect::<Vec<_>>())) } else { None }
 }
 
 fn check_reconcile(a: &[u8], b: &[u8], z: &[u8], trust: bool) -> Option<String> {
@@ -58,6 +79,18 @@ pub fn search_reconcile() -> i32 {
             return 1;
         }
     }}}
+    // six awkward sibling names, every presence/equality shape with 3 codes per side (3^18 is too many: two sides vary, the
+    // base follows side A or is absent)
+    for trust in [true, false] { for n in 0..(3u32.pow(12)) {
+        let c: Vec<u8> = (0..12).map(|k| ((n / 3u32.pow(k)) % 3) as u8).collect();
+        let (a, b) = (&c[0..6], &c[6..12]);
+        for zmode in 0..2 { let z: Vec<u8> = if zmode == 0 { a.to_vec() } else { vec![0; 6] };
+            if let Some(what) = check_reconcile_awk(a, b, &z, trust) {
+                println!("WITNESS {{\"kind\":\"reconcile-awk\",\"a\":\"{}\",\"b\":\"{}\",\"z\":\"{}\",\"trust\":{},\"what\":\"{}\"}}", a.iter().map(|x| x.to_string()).collect::<String>(), b.iter().map(|x| x.to_string()).collect::<String>(), z.iter().map(|x| x.to_string()).collect::<String>(), trust as u8, what.replace('"', "'"));
+                return 1;
+            }
+        }
+    } }
     for trust in [true, false] {
         for n in 0..(7u32.pow(6)) {
             let c: Vec<u8> = (0..6).map(|k| ((n / 7u32.pow(k)) % 7) as u8).collect();
@@ -70,6 +103,10 @@ pub fn search_reconcile() -> i32 {
     0
 }
 
+pub fn run_reconcile_awk(w: &str) -> i32 {
+    let d = |k: &str| -> Vec<u8> { json_str(w, k).unwrap_or_default().bytes().map(|c| c - b'0').collect() };
+    match check_reconcile_awk(&d("a"), &d("b"), &d("z"), json_str(w, "trust").unwrap_or_default() == "1") { Some(what) => { println!("REPRODUCED: {what}"); 1 } None => { println!("not reproduced"); 0 } }
+}
 pub fn run_reconcile(w: &str) -> i32 {
     let d = |k: &str| -> Vec<u8> { json_str(w, k).unwrap_or_default().bytes().map(|c| c - b'0').collect() };
     let (a, b, z) = (d("a"), d("b"), d("z"));
